@@ -145,4 +145,9 @@ example : MagicConfiguration.get_attacks 1 1 1 0 [5] 1 = none := by decide
 example : Magics.get_attacks [⟨1, 1, 1, 0, [5, 7]⟩, ⟨1, 1, 1, 0, [8, 9]⟩] 1 1 = some 9 := by decide
 example : Magics.get_attacks [⟨1, 1, 1, 0, [5, 7]⟩] 1 1 = none := by decide
 
+/-! axiom audit of the remaining `rs_*` theorems of this file -/
+#print axioms rs_magic_cfg_hash_eq
+#print axioms rs_magic_get_attacks_ub
+#print axioms rs_rook_magics_ub
+
 end Inkayaku.Translated
